@@ -21,7 +21,7 @@ PhIdx == [QUALITY |-> 0, CONVERGE |-> 1, PREPARE |-> 2, COMMIT |-> 3, DECIDE |->
 TkIdx == [none |-> 0, ok |-> 0, wronground |-> 1, othersigner |-> 2, absent |-> 3]
 VIdx == [bot |-> 0, base |-> 1, ext |-> 2, bad |-> 3]
 SliceOf(x) == (PhIdx[x.ph] + TkIdx[x.tk] + 3 * (x.r + 1) + 5 * VIdx[x.v]) % NSlices
-CoreSmall == {x \in CoreAll : x.snd = "member" /\ x.sig = "ok" /\ x.tk \in {"none", "ok"} /\ x.v \in {"ext", "bot"}}
+CoreSmall == {x \in CoreAll : x.snd = "member" /\ x.sig = "ok" /\ x.tk \in {"none", "ok"} /\ x.v \in {"ext", "bot"} /\ x.r # 2}
 PSpace == [di : ProgressDims.di, cr : ProgressDims.cr, cph : ProgressDims.cph]
 Init == /\ st = "core" /\ j = JNone /\ g = G0
         /\ IF Mode = "content" THEN c \in {x \in CoreAll : SliceOf(x) = Slice} ELSE c \in CoreSmall
